@@ -50,6 +50,13 @@ def _server_run(params, residue):
                     self.kernel.transmit(dst, src, d)
             k.add_actor("208.67.222.222", OpenDNS("208.67.222.222", params["ns_auto"]))
             extra = ["-n", "auto"]
+        fwd = None
+        if params.get("bind"):
+            # iodined -b: replies of the local DNS server are read into a buffer of their own
+            from simnet import sessions as _sessions
+            fwd = _sessions.FwdResolver("127.0.0.1")
+            k.add_actor("127.0.0.1", fwd)
+            extra = list(extra) + ["-b", str(_sessions.BIND_PORT)]
         srv = sim.server(extra=extra, residue=(residue[1], residue[2]))
         if not srv.alive():
             return None
@@ -69,6 +76,24 @@ def _server_run(params, residue):
             A.option(b"l")
         canaries, echoes = [], []
         for i in range(params["n"]):
+            if fwd is not None and i % 5 == 2:
+                # other people's queries are pending at the local DNS server (ids that differ in one byte); it answers one of them
+                # at length, then a runt of 1..11 bytes arrives on the forwarding socket: who (if anybody) gets the runt handed
+                # on is a matter of the runt's own bytes
+                for j, low in enumerate([0x00, 0xFF, 0xC0, 0x05, 0x01, 0x41]):
+                    k.transmit(("10.77.0.%d" % (j + 1), 4000 + j), (scen.SERVER_IP, 53), proto.build_query(0x4100 | low, [b"www", b"example", b"org"], 1))
+                k.run(k.now + 5000)
+                if fwd.got:
+                    fsrc, fd = fwd.got.pop(0)
+                    try:
+                        fm = proto.parse_msg(fd)
+                        k.transmit(("127.0.0.1", 5353), fsrc, proto.build_answer_raw(fm.id, fm.qd[0][0], fm.qd[0][1], [(1, b"\x0a\x01\x02\x03")], extra=bytes(rng.getrandbits(8) for _ in range(40))))
+                        k.run(k.now + 3000)
+                    except (proto.ParseError, IndexError):
+                        pass
+                    k.transmit(("127.0.0.1", 5353), fsrc, rng.choice([b"\x41", b"\x41", b"\x41\x05", bytes(rng.getrandbits(8) for _ in range(rng.randint(1, 11)))]))
+                    k.run(k.now + 3000)
+                fwd.got[:] = []
             # "another client" first leaves a long datagram in the buffer ...
             long_frame = proto.make_frame(Bc.tun_ip, "10.9.0.1", 5000 + i, rng.choice([100, 150]), "random", rng)
             Bc.up_seq = (Bc.up_seq + 1) & 7
@@ -296,6 +321,8 @@ def run(ctx):
                   "raw": i % 8 == 3}
                  for i in range(n)]
         for p_ in plist:
+            if p_["side"] == "server" and (p_["idx"] // 2) % 4 == 2:
+                p_["bind"] = True
             if p_["side"] == "server" and (p_["idx"] // 2) % 6 == 1:
                 p_["ns_auto"] = rng.choice([["notresponse", "cut", "full"], ["notresponse", "cut", "cut"], ["cut", "notresponse", "cut"], ["full"],
                                             ["silent", "notresponse", "cut"]])
